@@ -160,6 +160,8 @@ func (s *mstate) predict(e mevent, c mcfg) mpred {
 	unknown := mpred{verdict: mustRefuse, errText: "unknown fid", why: "fid not valid"}
 	inuse := mpred{verdict: mustRefuse, errText: "fid already in use", why: "fid already valid"}
 	switch e.Op {
+	case "badversion":
+		return mpred{verdict: mustRefuse, why: "Tversion with an msize too small to carry an I/O header"}
 	case "auth":
 		if e.Afid == wire.NOFID {
 			return unknown
@@ -357,6 +359,13 @@ func (s *mstate) apply(e mevent, forwarded, success bool, user string) (gone []u
 // toMsg builds the request for an event.
 func (e mevent) toMsg(tag uint16, dotu bool) *wire.Msg {
 	switch e.Op {
+	case "badversion":
+		// refused (msize below the I/O header size); it names the dialect the session does NOT use
+		v := "9P2000.u"
+		if dotu {
+			v = "9P2000"
+		}
+		return &wire.Msg{Type: wire.Tversion, Tag: tag, Msize: 10, Version: v}
 	case "auth":
 		return &wire.Msg{Type: wire.Tauth, Tag: tag, Afid: e.Afid, Uname: e.Uname, Aname: "", NUname: e.Uid, HasNUname: dotu}
 	case "attach":
